@@ -1,1 +1,61 @@
-From Verif Require Import C02.Model.
+(* C02 — property theorems only. Each is closed by [exact] of a lemma from Proofs.v and followed by Print Assumptions.
+   [wf u]: both words are 64-bit. uval / sval: the value read as Uint128 / Int128. A finite float64 is FFin sign m e = +-m * 2^e
+   with 0 <= m < 2^53; [fval_trunc] is its truncation toward zero. *)
+From Coq Require Import ZArith List Bool.
+From Verif Require Import common.Word64 C01.Model C04.Model C02.Model C02.Proofs.
+Import ListNotations.
+Open Scope Z_scope.
+
+(* decimal text: String then FromString is the identity, for all 2^128 values of each type *)
+Theorem C02_text_round_trip : forall u, wf u -> UFromString (UString u) = Some u /\ IFromString (IString u) = Some u.
+Proof. exact text_round_trip. Qed.
+Print Assumptions C02_text_round_trip.
+
+(* big.Int: exact in range, the nearest bound outside, for every integer; and back *)
+Theorem C02_Uint128FromBigInt_clamps : forall z, wf (UFromBig z) /\ uval (UFromBig z) = Z.max 0 (Z.min z (P128 - 1)).
+Proof. exact UFromBig_clamps. Qed.
+Print Assumptions C02_Uint128FromBigInt_clamps.
+Theorem C02_Int128FromBigInt_clamps : forall z, wf (IFromBig z) /\ sval (IFromBig z) = Z.max (- (P128 / 2)) (Z.min z (P128 / 2 - 1)).
+Proof. exact IFromBig_clamps. Qed.
+Print Assumptions C02_Int128FromBigInt_clamps.
+Theorem C02_bigint_round_trip : forall u, wf u -> UFromBig (UAsBig u) = u /\ IFromBig (IAsBig u) = u.
+Proof. exact big_round_trip. Qed.
+Print Assumptions C02_bigint_round_trip.
+
+(* float64: truncated toward zero when in range, the nearest bound when not, for every finite double; NaN gives 0, infinities the bounds *)
+Theorem C02_Uint128FromFloat64 : forall neg m e, 0 <= m < 2 ^ 53 ->
+  wf (Uint128FromFloat64 (FFin neg m e)) /\ uval (Uint128FromFloat64 (FFin neg m e)) = Z.max 0 (Z.min (fval_trunc neg m e) (P128 - 1)).
+Proof. exact Uint128FromFloat64_spec. Qed.
+Print Assumptions C02_Uint128FromFloat64.
+Theorem C02_Int128FromFloat64 : forall neg m e, 0 <= m < 2 ^ 53 ->
+  wf (Int128FromFloat64 (FFin neg m e)) /\ sval (Int128FromFloat64 (FFin neg m e)) = Z.max (- (P128 / 2)) (Z.min (fval_trunc neg m e) (P128 / 2 - 1)).
+Proof. exact Int128FromFloat64_spec. Qed.
+Print Assumptions C02_Int128FromFloat64.
+Theorem C02_FromFloat64_specials :
+  Uint128FromFloat64 FNaN = zero /\ Int128FromFloat64 FNaN = zero /\
+  Uint128FromFloat64 (FInf false) = MaxU /\ Uint128FromFloat64 (FInf true) = zero /\ Int128FromFloat64 (FInf false) = MaxI /\ Int128FromFloat64 (FInf true) = MinI.
+Proof. exact FromFloat64_specials. Qed.
+Print Assumptions C02_FromFloat64_specials.
+
+(* AsFloat64 below 2^53: exactly the value, never a negative zero. (Beyond 2^53 the one-unit-in-the-last-place bound is decided by
+   the driver's oracle on every run, not proved: partial.) *)
+Theorem C02_AsFloat64_exact_below_2_53_partial : forall u, wf u ->
+  (uval u < 2 ^ 53 -> UAsFloat64 u = (false, uval u)) /\ (- 2 ^ 53 < sval u < 2 ^ 53 -> IAsFloat64 u = (false, sval u) \/ (sval u < 0 /\ IAsFloat64 u = (true, sval u))).
+Proof. exact AsFloat64_exact_below_2_53. Qed.
+Print Assumptions C02_AsFloat64_exact_below_2_53_partial.
+
+(* narrowing predicates are true exactly when the matching conversion preserves the value *)
+Theorem C02_narrowing : forall u, wf u ->
+  (UIsInt128 u = true <-> sval u = uval u) /\ (UIsUint64 u = true <-> UAsUint64 u = uval u) /\
+  (IIsUint128 u = true <-> uval u = sval u) /\ (IIsInt64 u = true <-> IAsInt64 u = sval u) /\ (IIsUint64 u = true <-> IAsUint64 u = sval u).
+Proof. exact narrowing_spec. Qed.
+Print Assumptions C02_narrowing.
+
+Module NonVacuous.
+  Example wf_examples : wf (mk MAX64 0) /\ wf MinI /\ wf MaxU. Proof. repeat split; cbn; discriminate. Qed.
+  (* -2^64 = hi:2^64-1, lo:0 : the value whose conversions were wrong before the repair *)
+  Example minus_two_to_the_64 : IAsFloat64 (mk MAX64 0) = (true, - W) /\ Int128FromFloat64 (FFin true (2 ^ 52) 12) = mk MAX64 0 /\ IString (mk MAX64 0) = [45;49;56;52;52;54;55;52;52;48;55;51;55;48;57;53;53;49;54;49;54].
+  Proof. repeat split; vm_compute; reflexivity. Qed.
+  Example float_bounds : Int128FromFloat64 (FFin true (2 ^ 52) 75) = MinI /\ Int128FromFloat64 (FFin false (2 ^ 52) 75) = MaxI /\ Uint128FromFloat64 (FFin false (2 ^ 53 - 1) 75) = mk (MAX64 - 2047) 0.
+  Proof. repeat split; vm_compute; reflexivity. Qed.
+End NonVacuous.
